@@ -352,6 +352,11 @@ def gen_command(rng, max_events=8):
         want = rng.choice([good, good, good, good, cur, npop, cur + 1])
         want = max(1, want)
         pool = rng.sample(NAMES, min(len(NAMES), want))
+        if rng.random() < 0.3:
+            # a permutation of the default names: still a renaming that must be applied
+            pool = [f"deme{i + 1}" for i in range(want)]
+            rng.shuffle(pool)
+            tags.add("deme_names_permutation")
         if bad(0.1) and len(pool) > 1:
             pool[-1] = pool[0]
         names = pool
